@@ -19,7 +19,8 @@ SIGNATURES = {
 }
 # limits of the config-default priors (harness/config/priors/vclasses.yaml), filled lazily by default_limits()
 _DEFAULT_LIMITS = {}
-OPS = {"+": "OAdd", "*": "OMul", "/": "ODiv"}
+OPS = {"+": "OAdd", "*": "OMul", "/": "ODiv", "//": "OFloorDiv", "%": "OMod"}
+UNOPS = {"neg": "UNeg", "abs": "UAbs"}     # ModifiedPrior forms with a ModelTree node (NUn)
 
 
 def unhex(s):
@@ -29,11 +30,12 @@ def unhex(s):
 class Gen:
     def __init__(self, rng, max_depth=3, big_tuples=True, arith=True, consts=True, families=("uniform",), arrays=False,
                  tuple_member_kinds=False, underscore_classes=False, more_ops=False, more_forms=False, defaults=False,
-                 numeric_names=False):
+                 pow_ops=True, log_ops=False, numeric_names=False):
         # opt-in extensions (all off by default; with them off the random stream is unchanged):
         #   tuple_member_kinds  arithmetic priors and int constants as tuple members, int constants as kwargs
         #   underscore_classes  classes CE / LC (constructor-argument names containing "_")
-        #   more_ops            "-", "**", unary neg / abs in arithmetic (no ModelTree node: oracle level only)
+        #   more_ops            "-", unary neg / abs in arithmetic (ModelTree: NUn; a - b is built by the API as
+        #                       a + (-b), see expected_tree) and "**" (no ModelTree semantics: oracle level only)
         #   more_forms          Collection varargs / __setitem__ / raw nested lists, list-valued kwargs (L1), N3 nesting,
         #                       a whole TuplePrior passed as kwarg with members created out of index order
         #   defaults            omitted kwargs / tuple members / nested classes (config-default priors)
@@ -42,6 +44,8 @@ class Gen:
         self.tuple_member_kinds = tuple_member_kinds
         self.underscore_classes = underscore_classes
         self.more_ops = more_ops
+        self.pow_ops = pow_ops          # with more_ops: also generate ** (oracle level only)
+        self.log_ops = log_ops          # with more_ops: also af.Log(x) / af.Log10(x) (numpy: oracle level only)
         self.more_forms = more_forms
         self.defaults = defaults
         self.rng = rng
@@ -86,14 +90,20 @@ class Gen:
 
     def arith_expr(self, depth=0):
         self.features.add("arith")
-        if self.more_ops and self.rng.random() < 0.35:
+        if self.more_ops and self.rng.random() < 0.5:
             self.features.add("ops2")
-            kind = self.rng.choice(["-", "-", "**", "neg", "abs"])
-            a = self.prior_ref() if (depth >= 1 or self.rng.random() < 0.7) else self.arith_expr(depth + 1)
-            if kind in ("neg", "abs"):
+            kind = self.rng.choice(["-", "-", "-", "%", "%", "//", "//", "neg", "neg", "abs", "abs"] + (["**"] if self.pow_ops else [])
+                                   + (["log", "log10"] if self.log_ops else []))
+            a = self.prior_ref() if (depth >= 1 or self.rng.random() < 0.6) else self.arith_expr(depth + 1)
+            if kind in ("neg", "abs", "log", "log10"):
                 return {"t": "unary", "op": kind, "a": a}
             if kind == "**":
                 return {"t": "arith", "op": "**", "l": a, "r": {"t": "const", "v": self.rng.choice([2.0, 3.0]).hex()}}
+            if kind in ("%", "//"):
+                # ModPrior / FloorDivPrior: operands of both signs (priors with negative ranges, negative constants), c % p forms
+                b = self.prior_ref() if self.rng.random() < 0.45 else \
+                    {"t": "const", "v": self.rng.choice([0.75, 2.0, -1.5, -0.5, 3.0, 360.0, -2.0]).hex()}
+                return {"t": "arith", "op": kind, "l": a, "r": b} if self.rng.random() < 0.7 else {"t": "arith", "op": kind, "l": b, "r": a}
             b = self.prior_ref() if self.rng.random() < 0.5 else {"t": "const", "v": self.rng.choice([0.5, 2.0, -1.5]).hex()}
             return {"t": "arith", "op": "-", "l": a, "r": b} if self.rng.random() < 0.7 else {"t": "arith", "op": "-", "l": b, "r": a}
         op = self.rng.choice(["+", "*", "/", "+", "*"])
@@ -113,7 +123,7 @@ class Gen:
 
     def scalar(self):
         r = self.rng.random()
-        if self.arith and r < 0.12:
+        if self.arith and r < (0.2 if self.more_ops else 0.12):
             return self.arith_expr()
         if self.consts and r < 0.27:
             return self.const()
@@ -455,7 +465,19 @@ def expected_tree(e, names=None):
     if t in ("prior", "const"):
         return dict(e)
     if t == "arith":
-        return {"t": "arith", "op": e["op"], "l": expected_tree(e["l"]), "r": expected_tree(e["r"])}
+        l, r = expected_tree(e["l"]), expected_tree(e["r"])
+        if e["op"] == "-":
+            # ArithmeticMixin.__sub__: a - b = a + (-b); __rsub__ (float - b): (-b) + float; -float is a float
+            def neg(x):
+                if x["t"] == "const":
+                    return {"t": "const", "v": (-unhex(x["v"])).hex()}
+                return {"t": "unary", "op": "neg", "a": x}
+            if l["t"] == "const" and r["t"] == "const":
+                return {"t": "const", "v": (unhex(l["v"]) - unhex(r["v"])).hex()}
+            if l["t"] == "const":
+                return {"t": "arith", "op": "+", "l": neg(r), "r": l}
+            return {"t": "arith", "op": "+", "l": l, "r": neg(r)}
+        return {"t": "arith", "op": e["op"], "l": l, "r": r}
     if t == "unary":
         return {"t": "unary", "op": e["op"], "a": expected_tree(e["a"])}
     if t == "tuple":
@@ -510,6 +532,8 @@ def same_tree(exp, got):
         return unhex(exp["v"]) == unhex(got["v"])
     if t == "arith":
         return exp["op"] == got["op"] and same_tree(exp["l"], got["l"]) and same_tree(exp["r"], got["r"])
+    if t == "unary":
+        return exp["op"] == got["op"] and same_tree(exp["a"], got["a"])
     if t == "tuple":
         return len(exp["members"]) == len(got["members"]) and all(
             a[0] == b[0] and same_tree(a[1], b[1]) for a, b in zip(exp["members"], got["members"]))
@@ -540,6 +564,8 @@ def coq_node(t):
         return "(NTuple %s)" % clist(["(%s, (%s, %s))" % (cstr(n), cnat(member_index(n)), coq_node(c)) for n, c in t["members"]])
     if k == "arith":
         return "(NBin %s %s %s %s %s)" % (OPS[t["op"]], cstr(t["ln"]), cstr(t["rn"]), coq_node(t["l"]), coq_node(t["r"]))
+    if k == "unary":
+        return "(NUn %s %s %s)" % (UNOPS[t["op"]], cstr(t["name"]), coq_node(t["a"]))
     if k == "model":
         ctor = clist([cstr(a) for a, _, _ in SIGNATURES[t["cls"]]])
         return "(NModel %s %s %s)" % (cstr(t["cls"]), ctor, clist([cpair(cstr(n), coq_node(c)) for n, c in t["attrs"]]))
@@ -568,11 +594,18 @@ def coq_path(p):
 def tree_ok_for_model(t):
     """The Coq model covers names without leading underscore and compound names read from the object."""
     k = t["t"]
+
+    def name_ok(nm):
+        return not (nm.startswith("_") or nm in ("id", "cls") or not all(32 <= ord(c) < 127 for c in nm))
     if k == "arith":
-        for nm in (t["ln"], t["rn"]):
-            if nm.startswith("_") or nm in ("id", "cls") or not all(32 <= ord(c) < 127 for c in nm):
-                return False
+        if t["op"] not in OPS or not name_ok(t["ln"]) or not name_ok(t["rn"]):
+            return False             # ** : no exact value semantics in the model
         return tree_ok_for_model(t["l"]) and tree_ok_for_model(t["r"])
+    if k == "unary":
+        # Log / Log10 (numpy) have no exact semantics; a unary form of a float is not API-constructible
+        if t["op"] not in UNOPS or not name_ok(t["name"]) or t["a"]["t"] not in ("prior", "arith", "unary"):
+            return False
+        return tree_ok_for_model(t["a"])
     if k == "tuple":
         return all(tree_ok_for_model(c) for _, c in t["members"])
     if k in ("model", "coll"):
